@@ -33,6 +33,21 @@ so that the same question is asked of one object before and after other calls (c
 value, and with live objects as both operands.  Every answer is judged against the definition evaluated on the value a fresh object
 would hold at that point.  `m_atc` / `v_atc` read through the const operator[].
 
+Returned objects: `made NP (kind L tok_1 .. tok_L)*NP K step_1 .. step_K`: NP producers are called one after the other; what each
+RETURNS (the returned temporary itself, copy-elided / copy-constructed, never rebuilt from entries) becomes the next live matrix /
+vector; a matrix / vector argument of a producer is a table / list or `@j` = an object made earlier in the case.  Matrix producers:
+tr M (Transpose) | sb M i j (Sub_Matrix) | ou V V (Outer_Vector_Product) | id k (Identity_Matrix) | mp M M (operator*) | pr M M (Product)
+| pl M M (operator+) | pn M M (Plus) | mi M M (operator-) | ms M x | sm x M | dv M x | fl r c x (Matrix(r,c,x)) | dg L (Matrix(diagonal))
+| cp M (copy constructor) | hs T k steps (an object after a call history) | bk <grid of M> (block constructor) | iv M (Inverse)
+| ro a d L (Rotation_Matrix) | qq M | qr M (QR_Decomposition .first / .second) | rn M (Round);  vector producers: rr M i | rc M i
+(Return_Row / Return_Column) | mv M V | vm V M | cr V V (Cross) | nd V (Normalized) | sc V x | sp a b c (Spherical_Coordinates) | vc V.
+Then the session `K step_1 .. step_K` (steps of `life`) runs twice, each time in a forked child: on the returned objects themselves and
+on objects built from literals with the same entries (entries read through Rows()/Columns()/operator[]).  Output:
+`<answers on the returned objects> && <answers on the literal-built objects> && <the returned objects as operator[] shows them>`.
+Predicates: every returned object has the shape (for the selecting / copying producers: the entries) its producer is defined to
+return; the two answer lists are equal token for token; the answers on the literals satisfy the clauses (judged as a `life` session).
+iv / ro / qq / qr / rn / sp are outside the Coq model (the model line is UNMODELLED and `compare` leaves these cases to the predicates).
+
 Ambient state: `amb K (name L tok_1 .. tok_L)*K <request>` is any request of this grammar (plain, `hist`, `life`) made after K calls
 of OTHER facilities of the library in the same process (Eigenvalues / Eigensystem / Eigenvectors / QR_Decomposition / Determinant /
 Inverse / Invertible / Rotation_Matrix / Angle / Spherical_Coordinates / Round / Integrate / Integrate_Gauss_Legendre / Find_Root /
@@ -53,8 +68,10 @@ SLACK = 64 * EPS      # DESIGN 5.3: |y_impl - y_exact| <= 64*eps*sum|t_k| for a 
 RULE = ("one case = one call of one spelling (or one law evaluated on the implementation's results) on generated operands, fresh or "
         "after a generated call history (Resize, Assign, writes, copies, compound assignments) on the same object, or one session "
         "(several live objects in one process, calls that change them interleaved with the same questions asked again and again), "
+        "or a session on objects RETURNED by the library (members and free functions of the property's list, Inverse, Rotation_Matrix, QR factors, "
+        "Round, chained), answered a second time on literal-built objects with the same entries, "
         "or any of these after calls of other facilities of the library in the same process, answered a second time by a pristine process; "
-        "non-trivial = the case has a non-square matrix operand or a non-conformable pair (shape guard exercised); distinct by case text")
+        "non-trivial = the case has a non-square matrix operand or a non-conformable pair (shape guard exercised), or is a session on returned objects; distinct by case text")
 LEVEL_TEXT = ("Theorems (Coq/MathComp, every shape and every entry, over an arbitrary commutative ring; the exactness laws over any "
               "number type satisfying only x*y=y*x resp. x*1=x, x*0=0, 0+x=x, x+0=x): see evidence.coverage.theorems. The Gallina model "
               "(coq/C04_Model.v) is the term that is extracted and run against libphysica on every run (bit-identical), and every clause "
@@ -88,7 +105,15 @@ LEVEL_TEXT = ("Theorems (Coq/MathComp, every shape and every entry, over an arbi
               "spellings leave the same value, invariant kept) for every number type; C04_normalized_unit over a real closed field "
               "(dot with itself and Norm() exactly 1 when an entry is non-zero) - for doubles 'unit to rounding' is only tested (S4). "
               "The new exact laws v*A = transpose(A)*v, A*v = v*transpose(A), transpose(A+-B) = transpose(A)+-transpose(B) are also "
-              "evaluated bit for bit on the implementation (operations law_vecmat_tr, law_trsum). Not theorems: anything about rounding "
+              "evaluated bit for bit on the implementation (operations law_vecmat_tr, law_trsum). Objects RETURNED by the library (`made` cases: every member / free function of the property's list as a producer, chained, plus "
+              "Inverse, Rotation_Matrix, QR_Decomposition, Round, Spherical_Coordinates; the session of questions and changing calls is answered "
+              "on the returned object itself and on a literal-built object with the same entries, the answers must be equal token for token): "
+              "C04_returned_objects (induction over derivations of any depth: every matrix handed out by a composition of the constructor and "
+              "the modelled members satisfies the class invariant, so Return_Row - which reads the stored row wholesale - has exactly Columns() "
+              "entries and Sub_Matrix gives again such an object with one row and one column less), C04_return_row_size (the invariant alone "
+              "suffices). For the producers outside the model (Inverse, Rotation_Matrix, QR factors, Round, Spherical_Coordinates) this is "
+              "tested only (S4 predicates made:returned-shape / returned-entries / returned-object), the model gives no answer there. "
+              "Not theorems: anything about rounding "
               "errors of sums (S4 only, a-priori slack); the clauses for shapes with zero rows (outside the quantifier; the theorems that "
               "rebuild a result through Matrix(vector<vector<double>>) assume a row); Angle() and Spherical_Coordinates are not part of C04.")
 LEVEL_NOTE = ("Coq 8.16.1 + MathComp 1.15; theorems are axiom-free; hand-written model tied by differential correspondence (extraction with "
@@ -898,6 +923,117 @@ def life_cases(rng, big, add):
 
 
 
+
+# ---- objects RETURNED by the library (grammar in the module docstring): every producer kind, alone and chained (a producer applied to
+#      an object made earlier), then the questions / mutators of a session on the returned objects
+M_PRODUCERS = ["iv", "sb", "tr", "ou", "id", "mp", "pr", "pl", "pn", "mi", "ms", "sm", "dv", "fl", "dg", "cp", "hs", "bk", "ro", "qq", "qr", "rn"]
+V_PRODUCERS = ["rr", "rc", "mv", "vm", "cr", "nd", "sc", "sp", "vc"]
+UNMODELLED = ("iv", "ro", "qq", "qr", "rn", "sp")
+
+
+def made_cases(rng, big, add):
+    def HK(): return rng.choice(["int", "int", "mixed", "mixed", "dyadic", "dyadic", "wide", "tiny"])
+    def dom(n):      # strictly diagonally dominant: invertible, QR defined
+        M = [[rng.uniform(-1, 1) for _ in range(n)] for _ in range(n)]
+        for i in range(n): M[i][i] = rng.choice([-1, 1]) * (n + rng.uniform(0.5, 2))
+        return M
+    ALL = M_PRODUCERS + V_PRODUCERS
+    for it in range(6000 if big else 420):
+        s = Session(rng, HK()); K = s.kind; prods = []; inv = set()      # inv: made matrices known to be invertible
+        def P(kind, toks, shp):
+            prods.append(f"{kind} {len(toks.split())} {toks}")
+            if isinstance(shp, tuple): s.ms.append(shp); return len(s.ms) - 1
+            s.vs.append(shp); return len(s.vs) - 1
+        def marg(m, n):
+            """a matrix argument of the shape: an object made earlier, or a table"""
+            return s.other(None, (m, n)) or mtab(rmat(rng, m, n, K))
+        def varg(n): return s.other_v(n) or flist(rvec(rng, n, K))
+        def produce(kind, src=None):
+            """one producer; src = index of a made matrix it has to use (None: fresh arguments)"""
+            if src is not None: m, n = s.ms[src]; A = f"@{src}"
+            else: m, n = rng.randint(1, 6), rng.randint(1, 6); A = None
+            sc = hx(float(rng.choice([2, 3, 0.5, -1, 1.5])))
+            if kind == "iv":
+                if A is None or src not in inv: m = rng.choice([1, 2, 2, 3, 3, 4, 5]); A = mtab(dom(m))
+                k = P("iv", A, (m, m)); inv.add(k); return k
+            if kind in ("qq", "qr"):
+                q = rng.randint(2, 4); k = P(kind, mtab(dom(q)), (q, q)); inv.add(k) if kind == "qq" else None; return k
+            if kind == "rn":
+                A = A or mtab([[rng.choice([-1, 1]) * rng.uniform(0.1, 1000) for _ in range(n)] for _ in range(m)]); return P("rn", A, (m, n))
+            if kind == "ro":
+                d = rng.choice([2, 3]); return P("ro", f"{hx(rng.uniform(-3, 3))} {d} {flist([rng.uniform(0.2, 2) for _ in range(3)])}", (d, d))
+            if kind == "sb":
+                if A is None or m < 2 or n < 2: m, n = rng.randint(2, 6), rng.randint(2, 6); A = mtab(rmat(rng, m, n, K))
+                return P("sb", f"{A} {rng.randrange(m)} {rng.randrange(n)}", (m - 1, n - 1))
+            if kind == "tr": return P("tr", A or mtab(rmat(rng, m, n, K)), (n, m))
+            if kind == "cp": return P("cp", A or mtab(rmat(rng, m, n, K)), (m, n))
+            if kind == "ou": return P("ou", f"{varg(m)} {varg(n)}", (m, n))
+            if kind == "id": k = rng.randint(1, 6); return P("id", str(k), (k, k))
+            if kind in ("mp", "pr"):
+                q = rng.randint(1, 5)
+                if A is not None and rng.random() < 0.5: return P(kind, f"{marg(q, m)} {A}", (q, n))
+                return P(kind, f"{A or mtab(rmat(rng, m, n, K))} {marg(n, q)}", (m, q))
+            if kind in ("pl", "pn", "mi"):
+                B = marg(m, n); A = A or mtab(rmat(rng, m, n, K)); return P(kind, f"{A} {B}" if rng.random() < 0.6 else f"{B} {A}", (m, n))
+            if kind in ("ms", "dv"): return P(kind, f"{A or mtab(rmat(rng, m, n, K))} {sc}", (m, n))
+            if kind == "sm": return P("sm", f"{sc} {A or mtab(rmat(rng, m, n, K))}", (m, n))
+            if kind == "fl": return P("fl", f"{m} {n} {s.num()}", (m, n))
+            if kind == "dg": return P("dg", flist(rvec(rng, m, K)), (m, m))
+            if kind == "hs":
+                return P("hs", hist_mat(rng, rng.randint(1, 6), rng.randint(1, 6), K if K != "dyadic" else "int", final=(m, n))[0], (m, n))
+            if kind == "bk":
+                p, q = rng.randint(1, 3), rng.randint(1, 3); A = A or mtab(rmat(rng, m, n, K))
+                lay = rng.randrange(4)
+                if lay == 0: return P("bk", f"1 1 {A}", (m, n))
+                if lay == 1: return P("bk", f"1 2 {A} {marg(m, q)}", (m, n + q))
+                if lay == 2: return P("bk", f"2 1 {marg(p, n)} 1 {A}", (m + p, n))
+                return P("bk", f"2 2 {A} {marg(m, q)} 2 {marg(p, n)} {marg(p, q)}", (m + p, n + q))
+            # vectors
+            A = A or mtab(rmat(rng, m, n, K))
+            if kind == "rr": return P("rr", f"{A} {rng.randrange(m)}", n)
+            if kind == "rc": return P("rc", f"{A} {rng.randrange(n)}", m)
+            if kind == "mv": return P("mv", f"{A} {varg(n)}", m)
+            if kind == "vm": return P("vm", f"{varg(m)} {A}", n)
+            if kind == "cr": return P("cr", f"{varg(3)} {varg(3)}", 3)
+            if kind == "nd": q = rng.randint(1, 6); return P("nd", flist([x if x != 0 and abs(x) < 1e6 else 1.0 for x in rvec(rng, q, "int")]), q)
+            if kind == "sc": q = rng.randint(1, 6); return P("sc", f"{varg(q)} {sc}", q)
+            if kind == "sp": return P("sp", f"{hx(rng.uniform(0.1, 5))} {hx(rng.uniform(0.1, 3))} {hx(rng.uniform(0, 6))}", 3)
+            q = rng.randint(1, 6); return P("vc", varg(q), q)
+        first = ALL[it % len(ALL)]
+        produce(first)
+        nm0 = len(s.ms)
+        # chains: members applied to the returned object give objects again (minor of an inverse, row of a minor, product with itself ..)
+        for _ in range(rng.choice([0, 0, 1, 1, 2])):
+            if s.ms:
+                src = rng.randrange(len(s.ms))
+                produce(rng.choice(["sb", "tr", "cp", "rr", "rc", "rr", "mv", "vm", "mp", "pl", "ms", "bk", "iv", "rn"]), src)
+            else: produce(rng.choice(M_PRODUCERS))
+        # the questions: on every returned object, before and after calls that change it
+        for k in range(len(s.ms)):
+            probes = [s.new_probe(M_PROBES) for _ in range(rng.choice([2, 3, 4]))]
+            probes[0] = (rng.choice(["return_row", "sub_matrix", "return_row", "vecmat", "matvec"]),) + probes[0][1:]
+            if s.ms[k][0] < 2 or s.ms[k][1] < 2: probes = [p for p in probes if p[0] != "sub_matrix"] or [s.new_probe(["return_row"])]
+            for p in probes: s.ask_m(k, p)
+            if rng.random() < 0.4:
+                if rng.random() < 0.5:
+                    R, C = s.ms[k]; g = (R + rng.randint(0, 2), C + rng.randint(1, 2)); s.steps.append(f"m {k} rs {g[0]} {g[1]}"); s.ms[k] = g
+                else: s.mutate_m(k, inplace=rng.random() < 0.7)
+                probes = [p for p in probes if p[0] != "sub_matrix" or (s.ms[k][0] >= 2 and s.ms[k][1] >= 2)] or [s.new_probe(["return_row"])]
+                for p in probes[:2]: s.ask_m(k, p)
+                s.steps.append(f"o m_show @{k}")
+        for k in range(len(s.vs)):
+            for _ in range(rng.choice([1, 2, 3])): s.ask_v(k, s.new_probe(V_PROBES))
+            # the returned vector as an operand next to returned matrices
+            c = [j for j, (R, C) in enumerate(s.ms) if R == s.vs[k]]
+            if c: s.steps.append(f"o {rng.choice(['v_mul_m', 'law_vecmat'])} @{k} @{rng.choice(c)}")
+            c = [j for j, (R, C) in enumerate(s.ms) if C == s.vs[k]]
+            if c: s.steps.append(f"o {rng.choice(['m_prod_v', 'm_op_mul_v', 'law_matvec'])} @{rng.choice(c)} @{k}")
+            if rng.random() < 0.3:
+                s.mutate_v(k, inplace=rng.random() < 0.7); s.ask_v(k, s.new_probe(V_PROBES)); s.steps.append(f"o v_show @{k}")
+        line = (f"made {len(prods)} " + " ".join(prods) + f" {len(s.steps)} " + " ".join(s.steps)).replace("  ", " ")
+        add(line, "made", "unmodelled-producer" if any(p.split()[0] in UNMODELLED for p in prods) else "modelled-producer", first)
+
+
 # ---- the ambient floating-point state (grammar in the module docstring): calls of other facilities of the library, each with
 #      arguments on which it is defined and terminates normally, and requests whose answers depend on the control state: results
 #      and operands in the subnormal range (flush-to-zero, denormals-are-zero) and inexact results (rounding direction)
@@ -1393,6 +1529,7 @@ def generate(rng, tier):
         br = [rng.randint(1, 3) for _ in range(GR)]; bc = [rng.randint(1, 3) for _ in range(GC)]
         add(f"blockm {GR} " + " ".join(f"{GC} " + " ".join(mtab(whole_operand(rng, br[R], bc[C], rng.choice(BLOCK_KINDS))) for C in range(GC)) for R in range(GR)), "block", "valid", "block-magnitudes")
     life_cases(rng, big, add)
+    made_cases(rng, big, add)
     amb_cases(rng, big, add, [c for c in cs if c is not None and len(c.line) < 1500])
     for n in range(1, 7):
         add(f"v_at {flist(rvec(rng, n))} {n - 1}", "vector", "v_at"); add(f"v_at {flist(rvec(rng, n))} {n}", "vector", "v_at"); add(f"v_at {flist(rvec(rng, n))} {n + 3}", "vector", "v_at")
@@ -1444,7 +1581,17 @@ def operands(line):
         return [], True
 
 
+def compare(c, io, mo, tol):
+    """the generic token-wise comparison; a `made` case whose producer is outside the model (UNMODELLED) is decided by its predicates"""
+    from vcheck import compare_lines
+    if mo.split()[-1:] == ["UNMODELLED"] or mo.split()[:1] == ["UNMODELLED"]:
+        req = amb_split(c.line)[1] if c.line.startswith("amb ") else c.line
+        if req.startswith("made ") and any(k in UNMODELLED for k, _ in made_split(req)[0]): return True, False, ""
+    return compare_lines(io, mo, tol)
+
+
 def nontrivial(c, io):
+    if c.line.startswith("made ") or " made " in c.line[:4000] and c.line.startswith("amb "): return True
     shp, conf = operands(c.line)
     return (not conf) or any(a != b for a, b in shp)
 
@@ -1489,8 +1636,119 @@ def amb_predicates(c, io):
     return out
 
 
+def made_split(line):
+    """(producers, body tokens) of a `made` case"""
+    t = line.split(); i = 2; prods = []
+    for _ in range(int(t[1])):
+        L = int(t[i + 1]); prods.append((t[i], t[i + 2:i + 2 + L])); i += 2 + L
+    return prods, t[i:]
+
+
+PRODUCER_NAME = {"iv": "Inverse", "sb": "Sub_Matrix", "tr": "Transpose", "ou": "Outer_Vector_Product", "id": "Identity_Matrix", "mp": "operator*", "pr": "Product",
+                 "pl": "operator+", "pn": "Plus", "mi": "operator-", "ms": "M*s", "sm": "s*M", "dv": "M/s", "fl": "Matrix(r,c,x)", "dg": "Matrix(diagonal)",
+                 "cp": "copy constructor", "hs": "call history", "bk": "block constructor", "ro": "Rotation_Matrix", "qq": "QR_Decomposition.first",
+                 "qr": "QR_Decomposition.second", "rn": "Round", "rr": "Return_Row", "rc": "Return_Column", "mv": "M*v", "vm": "v*M", "cr": "Cross",
+                 "nd": "Normalized", "sc": "v*s", "sp": "Spherical_Coordinates", "vc": "Vector copy constructor"}
+
+
+def made_producers(prods, shown):
+    """(0) every returned object, as Rows() / Columns() / operator[] (Size() / operator[]) show it, has the shape its producer is defined to
+    return on the arguments it was given; the producers that select or copy entries (Return_Row / Return_Column / Sub_Matrix / Transpose /
+    copies) return exactly these entries"""
+    o = Out(shown); objs = []
+    while o.more():
+        if o.t[o.i] == "M": R, C, G = o.mat(); objs.append(("M", (R, C), G))
+        else: v = o.vec(); objs.append(("V", len(v), v))
+    Ms = [x for x in objs if x[0] == "M"]; Vs = [x for x in objs if x[0] == "V"]
+    out = []; im = iv = 0
+    for kind, toks in prods:
+        r = Rd("x " + " ".join(toks)); r.hist = False
+        def M():
+            j = obj_ref(r)
+            if j is not None: return Ms[j][2], Ms[j][1]
+            A = r.plain_table(); return A, shape(A)
+        def V():
+            j = obj_ref(r)
+            return Vs[j][2] if j is not None else r.plain_list()
+        want = None; ent = None; vec = kind in V_PRODUCERS
+        if kind in ("tr",): A, (m, n) = M(); want = (n, m); ent = T(A) if m and n else None
+        elif kind == "cp": A, want = M(); ent = A
+        elif kind == "sb":
+            A, (m, n) = M(); i, j = r.int(), r.int(); want = (m - 1, n - 1)
+            ent = [[x for b, x in enumerate(row) if b != j] for a, row in enumerate(A) if a != i]
+        elif kind == "ou": want = (len(V()), len(V()))
+        elif kind == "id": k = r.int(); want = (k, k)
+        elif kind in ("mp", "pr"): (_, (m, _n)), (_, (_k, q)) = M(), M(); want = (m, q)
+        elif kind in ("pl", "pn", "mi", "ms", "dv", "iv", "rn"): want = M()[1]
+        elif kind == "sm": r.num(); want = M()[1]
+        elif kind == "fl": want = (r.int(), r.int())
+        elif kind == "dg": k = len(r.plain_list()); want = (k, k)
+        elif kind == "ro": r.num(); k = r.int(); want = (k, k)
+        elif kind in ("qq", "qr"): (_, (m, n)) = M(); want = (m, m) if kind == "qq" else (m, n)
+        elif kind == "rr": A, (m, n) = M(); i = r.int(); want = n; ent = A[i]
+        elif kind == "rc": A, (m, n) = M(); i = r.int(); want = m; ent = [row[i] for row in A]
+        elif kind == "mv": want = M()[1][0]
+        elif kind == "vm": V(); want = M()[1][1]
+        elif kind in ("cr", "sp"): want = 3
+        elif kind in ("nd", "sc"): want = len(V())
+        elif kind == "vc": ent = V(); want = len(ent)
+        elif kind == "hs":
+            r.hist = True
+            try: A = r.table(); want = shape(A); ent = A
+            except (Skip, ExpectExit, IndexError): want = ent = None
+            r.hist = False
+        elif kind == "bk":
+            g = [[M()[0] for _ in range(r.int())] for _ in range(r.int())]
+            ent = [sum((blk[a] for blk in row), []) for row in g for a in range(len(row[0]))]; want = shape(ent)
+        got = (Vs[iv] if vec else Ms[im]) if (iv < len(Vs) if vec else im < len(Ms)) else None
+        if vec: iv += 1
+        else: im += 1
+        if got is None: return [("made:protocol", "a returned object is not shown")]
+        name = PRODUCER_NAME.get(kind, kind)
+        if want is not None and got[1] != want:
+            out.append((f"made:returned-shape:{kind}", f"{name} returned an object that shows itself as {got[1]} (Rows/Columns/Size), its definition gives {want}")); return out
+        if ent is not None and want not in (0, None) and not (isinstance(want, tuple) and 0 in want):
+            same = meq(got[2], ent) if not vec else (len(got[2]) == len(ent) and all(feq(x, y) for x, y in zip(got[2], ent)))
+            if not same: out.append((f"made:returned-entries:{kind}", f"{name} returned entries {got[2]} where its definition selects {ent}")); return out
+    return out
+
+
+def made_predicates(c, io):
+    """objects returned by the library: (1) every answer given on the returned objects is, token for token, the answer given on
+    objects built from literals with the same entries; (2) the answers on the literal-built objects satisfy the clauses (judged as the
+    session `life` on these literals)"""
+    prods, body = made_split(c.line); names = "+".join(k for k, _ in prods)
+    said = ", ".join(PRODUCER_NAME.get(k, k) for k, _ in prods)
+    if io.split()[:1] == ["EXIT"] and "&&" not in io: return [(f"made:defined:{names}", f"a producer ({said}) terminated the process on arguments it is defined on")]
+    parts = [p.strip() for p in io.split("&&")]
+    if len(parts) != 3: return [("made:protocol", "three parts expected")]
+    obj, lit, shown = parts
+    o = Out(shown); ms = []; vs = []
+    while o.more():
+        if o.t[o.i] == "M":
+            R, C, G = o.mat()
+            if R == 0 or C == 0: return []
+            ms.append(G)
+        else: vs.append(o.vec())
+    out = made_producers(prods, shown)
+    if out: return out
+    if obj.split() != lit.split():
+        ta, tb = obj.split(), lit.split()
+        k = next((i for i, (x, y) in enumerate(zip(ta, tb)) if x != y), min(len(ta), len(tb)))
+        q = ta[:k].count("|") + 1
+        out.append((f"made:returned-object:{names}", f"question {q} of the session on the object(s) returned by {said} is answered differently than on literal-built "
+                    f"objects with the same entries (token {k}: {ta[k] if k < len(ta) else 'missing'} vs {tb[k] if k < len(tb) else 'missing'}; "
+                    f"returned objects as operator[] shows them: {shown[:300]})"))
+    inner = f"life {len(ms)} " + " ".join(mtab(A) for A in ms) + f" {len(vs)} " + " ".join(flist(v) for v in vs) + " " + " ".join(body)
+    out += [(sig + ":made", f"objects returned by {said}, rebuilt from literals: {msg}") for sig, msg in life_predicates(Case(inner.replace("  ", " ")), lit)]
+    return out
+
+
 def predicates(c, io):
     try:
+        if c.line.startswith("made "):
+            if io.startswith(("CRASH", "SANITIZER", "TIMEOUT", "HARNESSERR")): return []
+            return made_predicates(c, io)
         if c.line.startswith("amb "):
             if io.startswith(("CRASH", "SANITIZER", "TIMEOUT", "HARNESSERR")): return []
             return amb_predicates(c, io)
